@@ -235,6 +235,65 @@ def run(ctx):
     varint_rule(ctx)
     fixedbuf_rule(ctx)
     duration_rule(ctx)
+    decimal_decode_rule(ctx)
+
+
+def decimal_decode_rule(ctx):
+    """What the decimal reader hands to the visitor is the number on the wire: the unscaled integer is presented *as an
+    integer* only when the scale is zero; an empty mantissa is zero, not minus one (the sign test of a missing first byte
+    defaults to "not negative"); a big-decimal whose bytes go on after the scale is refused (any byte left, not two)."""
+    f = ctx.f
+    b = fn_by_label(f, 'de::deserializer::types::decimal::read_decimal')
+    if b is None:
+        ctx.ob('DECDECODE', 'anchor', False, None, 'read_decimal not found')
+        return
+    ctx.touched(b, len(b.calls()))
+    ints = [(bb, t) for bb, t in b.calls() if (t.get('callee') or '') in ('serde_core::de::Visitor::visit_u64', 'serde_core::de::Visitor::visit_i64',
+                                                                          'serde_core::de::Visitor::visit_u128', 'serde_core::de::Visitor::visit_i128') and not b.is_cleanup(bb)]
+    bad = []
+    for bb, t in ints:
+        good = False
+        for g in cmp_guards(b, bb):
+            if g['op'] == 'Eq' and g['r'].consts() == {0} and not g['r'].params() and not g['r'].fields and \
+                    ('scale' in g['l'].fields or any('read_varint' in cname(c) for c in g['l'].calls)) and not g['l'].has_arith():
+                good = True
+        if not good:
+            bad.append(short_loc(t.get('span')))
+    ctx.ob('DECDECODE', 'integers-only-at-scale-zero', bool(ints) and not bad, short_loc(b.span),
+           '%d integer presentation(s) of the unscaled value, each under `scale == 0`; not so at: %s' % (len(ints), bad or 'none'))
+    ctx.floor('DECDECODE', 'integer presentations of a decimal', len(ints), 4)
+    # sign test of the first byte
+    mo = [(bb, t) for bb, t in b.calls() if strip_generics(cname(t)).endswith('Option::map_or') and 'get' in origin(b, t['args'][0]).flags]
+    ok = len(mo) == 1 and const_int(mo[0][1]['args'][1]) == 0
+    ctx.ob('DECDECODE', 'empty-mantissa-is-not-negative', ok, short_loc(mo[0][1].get('span')) if mo else short_loc(b.span),
+           'the sign test of the first mantissa byte defaults to false when there is no byte: %s' % ok)
+    # leftover bytes of a big-decimal
+    lim = [(bb, t) for bb, t in b.calls() if strip_generics(cname(t)).endswith('Take::limit') and not b.is_cleanup(bb)]
+    ok = False
+    for sb in sorted(b.live_blocks()):
+        if b.term(sb)['k'] != 'switch' or b.is_cleanup(sb):
+            continue
+        si = b.switch_info(sb)
+        if si.get('kind') == 'enum':
+            continue
+        cond = switch_condition(b, si)
+        neg = False
+        while cond[0] == 'not':
+            neg, cond = not neg, cond[1]
+        if cond[0] != 'cmp':
+            continue
+        lo, ro = origin(b, cond[2]), origin(b, cond[3])
+        if not any(c is t for c in lo.calls for _, t in lim) or ro.consts() != {0} or ro.params():
+            continue
+        edges = {True: b.term(sb)['otherwise'], False: [x['bb'] for x in b.term(sb)['targets'] if x['v'] == 0][0]}
+        from .c19 import _CMP
+        if cond[1] not in _CMP:
+            continue
+        truth = lambda v: _CMP[cond[1]](v, 0) != neg
+        # 0 left: goes on; 1 or more left: Err
+        ok = (not all_paths_err(b, edges[truth(0)])) and all_paths_err(b, edges[truth(1)]) and all_paths_err(b, edges[truth(2)])
+    ctx.ob('DECDECODE', 'big-decimal/no-bytes-after-the-scale', ok and len(lim) == 1, short_loc(b.span),
+           'what is left of the length-delimited big-decimal after its scale is compared with 0: nothing left goes on, one byte or more is an error: %s' % ok)
 
 
 def duration_rule(ctx):
